@@ -41,6 +41,8 @@ def run_case(c):
         text = f"{c['target']}.{m}({recvname}) > v"              # the receiver parameter named explicitly
     elif c["path"] == "selfalias" and c["target"] in pop and m != "prop":
         text = f"{c['target']}.{m}({recvname} as who, x) > v"
+    elif c["path"] == "selffocus" and c["target"] in pop and m != "prop":
+        text = f"{c['target']}.{m} > {recvname} as who"          # the receiver parameter itself is the focus
     elif c["path"] == "enter" and m != "prop":
         text = f"{c['target']}.{m} > #enter"                     # the entry event of the method, for one receiver
     elif c["path"] == "external":
